@@ -1,15 +1,10 @@
 // linear_codes/utils.rs + utils.rs helpers: ceil_div, get_num_bytes, get_indices_from_sponge, calculate_t (C13, C17, C11)
 //@use core ops_gen sponge std
 //@enum file=poly-commit/src/error.rs name=Error
+//@use real
+//@spec lc_utils_spec
 
 // ---------- oracle side ----------
-pub open spec fn pow256(k: nat) -> nat decreases k { if k == 0 { 1 } else { 256 * pow256((k - 1) as nat) } }
-// big-endian value of a byte string
-pub open spec fn be_value(b: Seq<u8>, k: nat) -> nat decreases k { if k == 0 { 0 } else { 256 * be_value(b, (k - 1) as nat) + b[k - 1] as nat } }
-// sponge state after j rounds of (squeeze nb bytes; absorb them)
-pub open spec fn idx_state(s: SS, nb: nat, j: nat) -> SS decreases j {
-    if j == 0 { s } else { let p = idx_state(s, nb, (j - 1) as nat); sp_absorb(sp_sqb_next(p, nb), AbsData::Bytes(sp_sqb(p, nb))) }
-}
 pub proof fn lemma_bitlen_bounds(n: nat)
     ensures n < p2(bitlen(n)), n > 0 ==> n >= p2((bitlen(n) - 1) as nat)
     decreases n
@@ -94,21 +89,11 @@ pub fn get_indices_from_sponge(n: usize, t: usize, sponge: &mut Sponge) -> (res:
             forall|j: int| 0 <= j < it.index@ ==> (#[trigger] indices@[j]) < n,
             forall|j: int| 0 <= j < it.index@ ==> (#[trigger] indices@[j]) == be_value(sp_sqb(idx_state(old(sponge).st@, bytes_to_squeeze as nat, j as nat), bytes_to_squeeze as nat), bytes_to_squeeze as nat) % (n as nat),
 //@end
-pub open spec fn get_num_bytes_spec(n: usize) -> nat { ((bitlen(n as nat) + 7) / 8) as nat }
 pub proof fn lemma_pow256_mono(a: nat, b: nat) requires a <= b ensures pow256(a) <= pow256(b) decreases b
 { if a < b { lemma_pow256_mono(a, (b - 1) as nat); } }
 
 // ======================= calculate_t (C13): least t with 2*(1 - d/2)^t + n/|F| <= 2^-lambda, over the reals =======================
-//@use real
-pub uninterp spec fn MBS() -> nat;   // F::MODULUS_BIT_SIZE
 #[verifier::external_body] pub fn modulus_bit_size() -> (r: u32) ensures r == MBS(), 0 < r < 0x4000_0000 { unimplemented!() }
-pub open spec fn t_residual(sec_param: int, n: int) -> real { r_pow(2real, -sec_param) - (n as real) / r_pow(2real, MBS() as int) }   // 2^-lambda - n/|F|
-pub open spec fn t_base(d: (usize, usize)) -> real { 1real - (d.0 as real) / (2real * (d.1 as real)) }                                  // 1 - d/2 with d = d0/d1
-pub open spec fn t_params_ok(sec_param: int, d: (usize, usize), n: int) -> bool {
-    t_residual(sec_param, n) > 0real && r_log2(t_residual(sec_param, n)) != 0real && d.1 != 0 && t_base(d) > 0real && r_log2(t_base(d)) != 0real
-}
-pub open spec fn t_star(sec_param: int, d: (usize, usize), n: int) -> int { r_ceil((r_log2(t_residual(sec_param, n)) - 1real) / r_log2(t_base(d))) }
-
 //@fn id=lc_utils.calculate_t file=poly-commit/src/linear_codes/utils.rs scope=top name=calculate_t props=C13,C17
 pub fn calculate_t(sec_param: usize, distance: (usize, usize), codeword_len: usize) -> (res: Result<usize, Error>)
     requires
@@ -116,6 +101,7 @@ pub fn calculate_t(sec_param: usize, distance: (usize, usize), codeword_len: usi
     ensures
         (res is Ok) == t_params_ok(sec_param as int, distance, codeword_len as int),   // name=lc_utils.calculate_t.err_iff_unusable_parameters props=C13,C17
         res is Ok ==> res->Ok_0 <= codeword_len,                                       // name=lc_utils.calculate_t.capped_at_codeword_length props=C13
+        res is Ok ==> res->Ok_0 == t_value(sec_param as int, distance, codeword_len as int),   // name=lc_utils.calculate_t.value props=C13
         (res is Ok && 0 <= t_star(sec_param as int, distance, codeword_len as int) < codeword_len) ==> res->Ok_0 == t_star(sec_param as int, distance, codeword_len as int),   // name=lc_utils.calculate_t.is_t_star props=C13
         (res is Ok && t_star(sec_param as int, distance, codeword_len as int) >= codeword_len) ==> res->Ok_0 == codeword_len,   // name=lc_utils.calculate_t.cap props=C13
 //@body
